@@ -6,8 +6,8 @@ from . import translator
 from .common import *
 
 
-def gen_fit_case(rng, i, quant=None):
-    c = gen_problem(rng, quant=quant, N=None)
+def gen_fit_case(rng, i, quant=None, family=None, eps=None):
+    c = gen_problem(rng, quant=quant, N=None, family=family, eps=eps)
     m = c["meta"]
     lo, hi = m["range"]
     P = m["P"]
@@ -25,7 +25,7 @@ def gen_fit_case(rng, i, quant=None):
     start = [round_to(v, sc) for v in start]
     c["model"]["init"] = [hx(v, sc) for v in start]
     cfg = fits.solver_cfg(rng, sc)
-    c["ops"] = [["observe"], ["fit", cfg], ["observe"], ["jac_quiet"], ["ref_current"]]
+    c["ops"] = [["observe"], ["fit", cfg], ["observe"], ["jac_quiet"], ["ref_current"], ["tables"]]
     c["meta"]["kind"] = kind
     c["meta"]["cfg"] = cfg
     return c
@@ -83,6 +83,11 @@ def main(tier, seed, replay=None):
     proof_obligations(run, "C04")
     n = 140 if tier == "quick" else 3000
     cases = [gen_fit_case(rng, i, quant=(10 if i % 3 == 0 else None)) for i in range(n)]
+    # fits over exactly rank-deficient bases with a user threshold (truncation active along the whole fit) and fits with a
+    # large user threshold on a well-conditioned basis
+    for i in range(24 if tier == "quick" else 400):
+        fam = list(RANKDEF)[i % len(RANKDEF)]
+        cases.append(gen_fit_case(rng, i, quant=8, family=fam, eps=rng.choice([1e-6, 1e-5])))
     for i, c in enumerate(cases):
         c["id"] = i
     results = run_harness(binp, "scenario", cases, workdir, timeout_ms=20000)
@@ -112,6 +117,32 @@ def main(tier, seed, replay=None):
             stats[kk] += info[kk]
         stats["reset"] += 1 if info["reset"] else 0
         stats["ambiguous"] += 1 if info["ambiguous"] else 0
+    # the final state of every successful fit, numerically: coefficients optimal for the final parameters and
+    # residuals = W(Y - Phi C) (exact arithmetic; rank-deficient bases against the minimum-norm specification)
+    from . import num
+    nterms, nidx = [], []
+    for c, r, info in idx:
+        if not info["fit"]["ok"]:
+            continue
+        st = r["steps"]
+        after, tb = st[info["fi"] + 1]["v"], st[info["fi"] + 4]["v"]
+        fam = c["meta"]["family"]
+        if fam in RANKDEF:
+            t = num.rankdef_term(c, after, tb, RANKDEF[fam][3], mode=3)
+        else:
+            t = num.state_term(c, after, tb, with_jac=False, mode=3)
+        if t is not None:
+            nterms.append(t)
+            nidx.append((c, r, fam in RANKDEF))
+    ncodes = coq_eval("C04", num.HEADER, nterms, per_file_timeout=2400)
+    nhist = {}
+    for (c, r, rd), code, t in zip(nidx, ncodes, nterms):
+        nhist[code] = nhist.get(code, 0) + 1
+        if code in (3, 4, 5, 8):
+            from . import states
+            key = None
+            run.violation("fit: final state — %s" % (states.RD_TEXT.get(code) if rd else num.state_code_text(code)),
+                          {"case": c, "implementation": r, "coq_term": t}, key=key)
     outs = coq_eval("C04", fits.HEADER, terms, typ="LN")
     nok = 0
     for (c, r, info), o, t in zip(idx, outs, terms):
@@ -148,7 +179,8 @@ def main(tier, seed, replay=None):
                 "near / far / exact, optimizer settings drawn from patience 1-3/5/20/100, step bounds, tolerances, gtol incl. 0 and "
                 "0.5, scale_diag; the optimizer's run is recorded through the model protocol, turned into a script and replayed "
                 "through Model/LMDriver.v; non-trivial = at least one trial step",
-        "termination_histogram": hist_term, "steps": stats, "traces_validated_against_impl": nok})
+        "termination_histogram": hist_term, "steps": stats, "traces_validated_against_impl": nok,
+        "final_states_checked_numerically": len(nterms), "final_state_code_histogram": {str(k): v for k, v in nhist.items()}})
     run.samples = [{"ctor": c["ctor"], "family": c["meta"]["family"], "kind": c["meta"]["kind"], "cfg": c["meta"]["cfg"],
                     "termination": i["fit"]["termination"], "evaluations": i["fit"]["evaluations"],
                     "accepted": i["accepted"], "rejected": i["rejected"], "reset": i["reset"]} for c, r, i in idx[:3]]
